@@ -221,6 +221,7 @@ Example C14_table_facts :
   next_round 5 ex_callable true 0 0 9 = Some (1, 1) /\ next_round 5 ex_callable true 2 2 9 = None /\
   (forall p, p < 5 -> first_args 5 ex_callable (ex_own p) = Some (p, p)).
 Proof.
-  repeat split; try (vm_compute; reflexivity).
+  split; [vm_compute; reflexivity|]. split; [vm_compute; reflexivity|].
+  split; [vm_compute; reflexivity|]. split; [vm_compute; reflexivity|].
   intros p Hp. do 5 (destruct p as [|p]; [vm_compute; reflexivity|]). exfalso. repeat apply Nat.succ_lt_mono in Hp. inversion Hp.
 Qed.
